@@ -16,7 +16,7 @@ import time
 
 from . import CACHE_DIR, REPO_DIR, VERIF_DIR, PYTHON
 
-VARIANTS = ("plain", "asan", "inst", "noaccel")
+VARIANTS = ("plain", "asan", "inst", "noaccel", "alloc")
 
 _SHIM_SRC = os.path.join(VERIF_DIR, "native", "verifshim.c")
 
@@ -86,6 +86,12 @@ def _variant_env(variant):
     elif variant == "inst":
         env["CC"] = "gcc"
         env["CFLAGS"] = "-finstrument-functions -O2"
+    elif variant == "alloc":
+        # the ordinary optimised build, except that the library's allocations go through the shim (which passes them on
+        # unless a failure is armed): allocation faults for checks that judge results rather than memory safety
+        env["CC"] = "gcc"
+        env["CFLAGS"] = "-O2 -Dmalloc=verif_malloc -Dcalloc=verif_calloc -Dposix_memalign=verif_posix_memalign"
+        env["LDFLAGS"] = "-L%s -Wl,-rpath,%s -Wl,--no-as-needed -lverifshim" % (sd, sd)
     return env
 
 
@@ -193,6 +199,8 @@ def run_env(variant, build_dir, hashseed="0"):
         env["LD_LIBRARY_PATH"] = shim_dir() + ":" + env.get("LD_LIBRARY_PATH", "")
     elif variant == "inst":
         env["LD_PRELOAD"] = shim_path()
+    elif variant == "alloc":
+        env["LD_LIBRARY_PATH"] = shim_dir() + ":" + env.get("LD_LIBRARY_PATH", "")
     return env
 
 
